@@ -180,7 +180,7 @@ FIXED = {
                                            ('alloc_put', 39, cons(2, 1, [(2, [(0, 3)])]))],
          [(0, 'cons', 2, 1), (1, 'cons', 2, 1)], None,
          [('alloc_put', 39, cons(3, None, [(1, [(0, 1)])])), ('alloc_put', 39, cons(3, 1, [(1, [(0, 1)])]))]),
-        ('reshape-mixed-generations-vs-put', [('reshape', 39, [], [cons(2, 1, [(1, [(0, 1)])]), cons(3, 2, [(2, [(0, 2)])])]),
+        ('reshape-mixed-generations-vs-put', [('reshape', 39, [(3, 0, [inv(0, 4)])], [cons(2, 1, [(1, [(0, 1)])]), cons(3, 2, [(2, [(0, 2)])])]),
                                               ('alloc_put', 39, cons(2, 1, [(2, [(0, 3)])]))],
          [(0, 'cons', 2, 1), (1, 'cons', 2, 1)], None,
          [('alloc_put', 39, cons(3, None, [(1, [(0, 1)])])), ('alloc_put', 39, cons(3, 1, [(1, [(0, 1)])]))]),
